@@ -204,7 +204,7 @@ def run(ctx, rep):
                         rep.check(scoped, "R1", key(f, c, "inside `with order.trade`"), f, c,
                                   "a status change outside the trade's pending scope can complete the trade "
                                   "half-way through a response")
-    rep.floor("R1", "handler x report-status branches", n_branches, 20)
+    rep.floor("R1", "handler x report-status branches", n_branches, 10)
     tx = prog.own_method("Trade", "__exit__")
     cfg = ctx.cfg(tx)
     live_calls = [n for n, c in node_calls(cfg, "_update_status") if utext(c.args[0]) == "TradeStatus.LIVE"]
@@ -433,7 +433,7 @@ def r5_counts(ctx, rep, R):
                   and cs.func.name.startswith("execute_"), R,
                   "caller of client.add_transaction: " + key(cs.func, cs.node), cs.func, cs.node,
                   "only response handlers charge transactions")
-    rep.floor(R, "add_transaction call sites in handlers", n_c, 8)
+    rep.floor(R, "add_transaction call sites in handlers", n_c, 4)
 
 
 def _comp_filter_drops(prop):
